@@ -228,13 +228,15 @@ def run(rng, tier, res=None, want=("knnpred", "select")):
                     for a_, v_ in zip(real_np.asarray(a, dtype=float).ravel(), real_np.asarray(v, dtype=float).ravel()):
                         _t.append((float(a_), float(v_)))
                     return v
-                if not pre and rng.random() < 0.3:
+                import random as _random
+                rh_ = _random.Random(104729 * case + 7)        # a generator of its own: the main stream of cases is left as it was
+                if not pre and rh_.random() < 0.3:
                     # HISTORY: the same classifier object was trained before, on an easy problem (two distant groups: every candidate
                     # reaches accuracy 1) — C16 speaks of every training run, whatever the object has been through
                     n0 = 2 * (max_k + 2)
-                    X0 = np.array([[(1.0 if i % 2 == 0 else 100.0) + 0.01 * rng.random() for _ in range(d)] for i in range(n0)])
+                    X0 = np.array([[(1.0 if i % 2 == 0 else 100.0) + 0.01 * rh_.random() for _ in range(d)] for i in range(n0)])
                     Y0 = np.array([i % 2 for i in range(n0)], dtype=int) + int(Y.min())
-                    Xv0 = np.array([[(1.0 if i % 2 == 0 else 100.0) + 0.01 * rng.random() for _ in range(d)] for i in range(4)])
+                    Xv0 = np.array([[(1.0 if i % 2 == 0 else 100.0) + 0.01 * rh_.random() for _ in range(d)] for i in range(4)])
                     Yv0 = np.array([i % 2 for i in range(4)], dtype=int) + int(Y.min())
                     try:
                         o.fit(X0, Y0, Xv0, Yv0)
@@ -461,7 +463,9 @@ def run(rng, tier, res=None, want=("knnpred", "select")):
             try:
                 buf = Q.copy()
                 o.predict(buf)
-                Q2 = np.array([X[rng.randrange(n)] for _ in range(nq)]) if rng.random() < 0.5 else Q[::-1].copy()
+                import random as _random2
+                rb_ = _random2.Random(104729 * case + 11)      # own generator, as above
+                Q2 = np.array([X[rb_.randrange(n)] for _ in range(nq)]) if rb_.random() < 0.5 else Q[::-1].copy()
                 buf[:] = Q2
                 pb = o.predict(buf)
                 pc = o.predict(Q2.copy())
@@ -560,6 +564,22 @@ def run(rng, tier, res=None, want=("knnpred", "select")):
                 p1, c1 = (o1 if unsup else (o1, [0]))
                 if (p1[0], c1[0]) != (preds[t], clus[t]):
                     msgs.append(f"sample {t} predicted ({preds[t]},{clus[t]}) in the batch but ({p1[0]},{c1[0]}) alone")
+            if not pre:
+                # history: every training sample (the densest ones included) and two far outliers predicted in between — densities
+                # outside the range seen in training — must leave later predictions as they were
+                try:
+                    span = float(np.max(np.abs(X))) + 1.0
+                    hist = np.vstack([X, X[:1] + 50.0 * span, X[:1] * 0.0 + 1e6 * span])
+                    o.predict(hist.copy())
+                    out3 = predict_(list(range(nq)))
+                    p3, c3 = (out3 if unsup else (out3, [0] * nq))
+                    for t in range(nq):
+                        if (p3[t], c3[t]) != (preds[t], clus[t]):
+                            msgs.append(f"sample {t} predicted ({preds[t]},{clus[t]}) before and ({p3[t]},{c3[t]}) after an unrelated predict call on the "
+                                        f"training samples and two distant points")
+                    res.hit("c09_after_training_rows_and_outliers")
+                except Exception:
+                    res.hit("c09_history_call_raised")
             viol("C09", msgs, dict(meta, Q=Q.tolist()))
             res.hit("c09_checked")
         if case < 2 and lines:
